@@ -5,6 +5,7 @@ from datetime import datetime
 from ..gen.common import rng
 from ..hooks import AnchorCounter, wrap, bump
 from ..monitors import PathTap
+from ..oracles import vocab
 from ..util import iso
 
 LEVEL = "exploration"
@@ -13,7 +14,7 @@ RULE = ("explicit order: 6 orders x separators '-', '/', '.', ' ' x (y,m,d) with
         "PREFER_LOCALE_DATE_ORDER on/off (must be irrelevant); locale order: complete walk of all 205 languages and 299 "
         "regional locales with discriminating dates (d<=12, m<=12, m!=d), 3 separators, PREFER_LOCALE_DATE_ORDER on/off; "
         "after each locale, calls that enter its parsers with nothing to parse (own skip words, blank, impossible date; no explicit "
-        "order) followed by fresh order-less-locale (tl) reads; oracle = field copy, locale order read from the merged locale info as data (MDY when absent/off). Tripwire: "
+        "order) followed by fresh order-less-locale (tl) reads; oracle = field copy, locale order read from the shipped data files by a private loader (MDY when absent/off). Tripwire: "
         "Settings.DATE_ORDER left rewritten on exit of _try_parser triggers an immediate fresh read of the order-less locale. non-trivial distinct = distinct "
         "(language/locale, order, string) accepted by the absolute-time parser (path tap).")
 ASSUMPTIONS = ["only strings whose reading under the supplied order is a valid date are generated"]
@@ -162,13 +163,12 @@ def all_locales():
 
 
 def check_locale(ctx, c):
-    from dateparser.languages.loader import LocaleDataLoader
-
     if not c.get("after"):
         ctx.remember(check_locale, c)
     lang, loc, pl, y, m, d, sep = c["lang"], c["loc"], c["pl"], c["y"], c["m"], c["d"], c["sep"]
-    info = LocaleDataLoader().get_locale(loc).info
-    lo = info.get("date_order")
+    # the locale's own order is read from the shipped data files by the oracle's private loader (own overlay rule), never
+    # from a Locale object the library built: a loader that builds a regional locale wrongly would fool the latter
+    lo = vocab.locale_info(loc, lang).get("date_order")
     o = (lo or "MDY") if pl else "MDY"
     s = render(o, y, m, d, sep, True)
     kw = {"languages": [lang]} if loc == lang else {"locales": [loc]}
@@ -207,10 +207,9 @@ def disturb(ctx, lang, loc):
     made through the public API with no explicit DATE_ORDER; then the order-less locale is read with fresh parsers: the
     locale's order must not outlive the call that used it."""
     import dateparser
-    from dateparser.languages.loader import LocaleDataLoader
 
-    info = LocaleDataLoader().get_locale(loc).info
-    words = [w for w in (info.get("skip") or []) if w.strip()][:2] + ["", "32/13/2015"]
+    info = vocab.locale_info(loc, lang)
+    words = [w for w in (info.get("skip") or []) if isinstance(w, str) and w.strip()][:2] + ["", "32/13/2015"]
     kw = {"languages": [lang]} if loc == lang else {"locales": [loc]}
     for w in words:
         for st in (None, {"PREFER_DATES_FROM": "past"}):
@@ -286,6 +285,13 @@ def replay_case(ctx, v):
     if c["kind"] == "explicit":
         check_explicit(ctx, c)
     elif c["kind"] == "locale":
+        # the walk reads a language before its regional locales: part of the witness
+        from dateparser.date import DateDataParser
+
+        try:
+            DateDataParser(languages=[c["lang"]]).get_date_data("1/2/2003")
+        except Exception:
+            pass
         check_locale(ctx, c)
     else:
         raise SystemExit("tripwire events are replayed by re-running the check")
